@@ -382,57 +382,62 @@ static vector<EP> buildEPs() {
       std::istringstream in(s);
       S(c, "DataTable::read");
       std::unique_ptr<DataTable> dt = DataTable::read(in, sp, header, r);
-      // read succeeded: look at everything and edit names, rows and columns (each edit on a fresh copy; a bpp::Exception is a fine answer)
       size_t nr = dt->getNumberOfRows(), nc = dt->getNumberOfColumns();
       S(c, "DataTable::operator()(i,j)");
       for (size_t i = 0; i < nr; ++i) for (size_t j = 0; j < nc; ++j) use((*dt)(i, j));
       S(c, "DataTable::write");
       { std::ostringstream out; DataTable::write(*dt, out, ",", true); use(out.str()); }
       { std::ostringstream out; DataTable::write(*dt, out, "\t", false); use(out.str()); }
-      vector<string> two = {"x", "q"}, rowN(nc, "v"), colN(nr, "w"), namesR(nr), namesC(nc);
-      for (size_t i = 0; i < nr; ++i) namesR[i] = "r" + vf::str(i);
-      for (size_t j = 0; j < nc; ++j) namesC[j] = "c" + vf::str(j);
-      typedef std::function<void(DataTable&)> Ed;
-      vector<std::pair<const char*, Ed>> eds = {
-        {"DataTable::getRowNames", [](DataTable& t) { use(t.getRowNames()); }},
-        {"DataTable::getColumnNames", [](DataTable& t) { use(t.getColumnNames()); }},
-        {"DataTable::getRowName", [](DataTable& t) { use(t.getRowName(0)); use(t.getRowName(1)); }},
-        {"DataTable::getColumnName", [](DataTable& t) { use(t.getColumnName(0)); use(t.getColumnName(1)); }},
-        {"DataTable::setRowName", [](DataTable& t) { t.setRowName(0, "q"); use(t.getRowName(0)); }},
-        {"DataTable::setRowName(last)", [nr](DataTable& t) { t.setRowName(nr ? nr - 1 : 0, "x"); use(t.getRowNames()); }},
-        {"DataTable::setRowNames", [&](DataTable& t) { t.setRowNames(namesR); use(t.getRowNames()); t.setRowName(0, "q"); use(t.getRowNames()); }},
-        {"DataTable::setRowNames(two)", [&](DataTable& t) { t.setRowNames(two); use(t.getRowNames()); }},
-        {"DataTable::setColumnNames", [&](DataTable& t) { t.setColumnNames(namesC); use(t.getColumnNames()); }},
-        {"DataTable::setColumnNames(two)", [&](DataTable& t) { t.setColumnNames(two); use(t.getColumnNames()); }},
-        {"DataTable::getRow(i)", [](DataTable& t) { use(t.getRow(0)); use(t.getRow(1)); }},
-        {"DataTable::getRow(name)", [](DataTable& t) { use(t.getRow("x")); }},
-        {"DataTable::getColumn(i)", [](DataTable& t) { use(t.getColumn(0)); use(t.getColumn(1)); }},
-        {"DataTable::getColumn(name)", [](DataTable& t) { use(t.getColumn("x")); }},
-        {"DataTable::hasRow/hasColumn", [](DataTable& t) { use(t.hasRow("x")); use(t.hasColumn("x")); }},
-        {"DataTable::operator()(name,name)", [](DataTable& t) { use(t("x", "y")); }},
-        {"DataTable::operator()(name,j)", [](DataTable& t) { use(t("x", 0)); }},
-        {"DataTable::operator()(i,name)", [](DataTable& t) { use(t(0, "x")); }},
-        {"DataTable::deleteRow(i)", [](DataTable& t) { t.deleteRow(0); use(t.getNumberOfRows()); if (t.hasRowNames()) use(t.getRowNames()); }},
-        {"DataTable::deleteRow(name)", [](DataTable& t) { t.deleteRow("x"); use(t.getNumberOfRows()); }},
-        {"DataTable::deleteColumn(i)", [](DataTable& t) { t.deleteColumn(0); use(t.getNumberOfColumns()); if (t.hasColumnNames()) use(t.getColumnNames()); }},
-        {"DataTable::deleteColumn(name)", [](DataTable& t) { t.deleteColumn("x"); use(t.getNumberOfColumns()); }},
-        {"DataTable::addRow(row)", [&](DataTable& t) { t.addRow(rowN); use(t.getRow(t.getNumberOfRows() - 1)); }},
-        {"DataTable::addRow(name,row)", [&](DataTable& t) { t.addRow("q", rowN); use(t.getRow(t.getNumberOfRows() - 1)); use(t.getRowNames()); }},
-        {"DataTable::addRow(short row)", [&](DataTable& t) { t.addRow(vector<string>()); }},
-        {"DataTable::setRow", [&](DataTable& t) { t.setRow(0, rowN); use(t.getRow(0)); }},
-        {"DataTable::addColumn(col)", [&](DataTable& t) { t.addColumn(colN); use(t.getColumn(t.getNumberOfColumns() - 1)); }},
-        {"DataTable::addColumn(name,col)", [&](DataTable& t) { t.addColumn("q", colN); use(t.getColumn(t.getNumberOfColumns() - 1)); use(t.getColumnNames()); }},
-        {"DataTable::addColumn(long col)", [&](DataTable& t) { vector<string> v(nr + 1, "z"); t.addColumn(v); }},
-      };
-      static DataTable* keep = nullptr;
-      for (auto& e : eds) {
-        S(c, "DataTable::DataTable(const DataTable&)"); DataTable t(*dt);
-        S(c, e.first);
-        try { e.second(t); } catch (bpp::Exception&) {}
-        S(c, "DataTable::write(after edit)");
-        try { std::ostringstream out; DataTable::write(t, out, ",", true); use(out.str()); } catch (bpp::Exception&) {}
-      }
-      (void)keep;
+      S(c, "DataTable::DataTable(const DataTable&)"); { DataTable t(*dt); use(t.getNumberOfRows()); }
+    }, true);
+
+    // name / row / column edits and look-ups on every table that read() accepts: option = (edit, header, rowNames); the edit runs on the
+    // table as read; bpp::Exception is a fine answer. One edit per case so that one failing edit does not hide the others.
+    typedef std::function<void(DataTable&)> Ed;
+    vector<std::pair<string, Ed>> eds = {
+      {"DataTable::getRowNames", [](DataTable& t) { use(t.getRowNames()); }},
+      {"DataTable::getColumnNames", [](DataTable& t) { use(t.getColumnNames()); }},
+      {"DataTable::getRowName", [](DataTable& t) { use(t.getRowName(0)); use(t.getRowName(1)); }},
+      {"DataTable::getColumnName", [](DataTable& t) { use(t.getColumnName(0)); use(t.getColumnName(1)); }},
+      {"DataTable::setRowName", [](DataTable& t) { t.setRowName(0, "q"); use(t.getRowName(0)); }},
+      {"DataTable::setRowNames", [](DataTable& t) { vector<string> n(t.getNumberOfRows()); for (size_t i = 0; i < n.size(); ++i) n[i] = "r" + vf::str(i); t.setRowNames(n); use(t.getRowNames()); t.setRowName(0, "q"); use(t.getRowNames()); }},
+      {"DataTable::setRowNames(two names)", [](DataTable& t) { t.setRowNames({"x", "q"}); use(t.getRowNames()); }},
+      {"DataTable::setColumnNames", [](DataTable& t) { vector<string> n(t.getNumberOfColumns()); for (size_t i = 0; i < n.size(); ++i) n[i] = "c" + vf::str(i); t.setColumnNames(n); use(t.getColumnNames()); }},
+      {"DataTable::setColumnNames(two names)", [](DataTable& t) { t.setColumnNames({"x", "q"}); use(t.getColumnNames()); }},
+      {"DataTable::getRow(i)", [](DataTable& t) { use(t.getRow(0)); use(t.getRow(1)); }},
+      {"DataTable::getRow(name)", [](DataTable& t) { use(t.getRow("x")); }},
+      {"DataTable::getColumn(i)", [](DataTable& t) { use(t.getColumn(0)); use(t.getColumn(1)); }},
+      {"DataTable::getColumn(name)", [](DataTable& t) { use(t.getColumn("x")); }},
+      {"DataTable::hasRow", [](DataTable& t) { use(t.hasRow("x")); }},
+      {"DataTable::hasColumn", [](DataTable& t) { use(t.hasColumn("x")); }},
+      {"DataTable::operator()(name,name)", [](DataTable& t) { use(t("x", "y")); }},
+      {"DataTable::operator()(name,j)", [](DataTable& t) { use(t("x", 0)); }},
+      {"DataTable::operator()(i,name)", [](DataTable& t) { use(t(0, "x")); }},
+      {"DataTable::operator()(i,j) out of range", [](DataTable& t) { use(t(t.getNumberOfRows(), 0)); }},
+      {"DataTable::deleteRow(i)", [](DataTable& t) { t.deleteRow(0); use(t.getNumberOfRows()); if (t.hasRowNames()) use(t.getRowNames()); }},
+      {"DataTable::deleteRow(name)", [](DataTable& t) { t.deleteRow("x"); use(t.getNumberOfRows()); }},
+      {"DataTable::deleteColumn(i)", [](DataTable& t) { t.deleteColumn(0); use(t.getNumberOfColumns()); if (t.hasColumnNames()) use(t.getColumnNames()); }},
+      {"DataTable::deleteColumn(name)", [](DataTable& t) { t.deleteColumn("x"); use(t.getNumberOfColumns()); }},
+      {"DataTable::addRow(row)", [](DataTable& t) { t.addRow(vector<string>(t.getNumberOfColumns(), "v")); use(t.getRow(t.getNumberOfRows() - 1)); }},
+      {"DataTable::addRow(name,row)", [](DataTable& t) { t.addRow("q", vector<string>(t.getNumberOfColumns(), "v")); use(t.getRow(t.getNumberOfRows() - 1)); use(t.getRowNames()); }},
+      {"DataTable::addRow(short row)", [](DataTable& t) { t.addRow(vector<string>()); }},
+      {"DataTable::setRow", [](DataTable& t) { t.setRow(0, vector<string>(t.getNumberOfColumns(), "v")); use(t.getRow(0)); }},
+      {"DataTable::addColumn(col)", [](DataTable& t) { t.addColumn(vector<string>(t.getNumberOfRows(), "w")); use(t.getColumn(t.getNumberOfColumns() - 1)); }},
+      {"DataTable::addColumn(name,col)", [](DataTable& t) { t.addColumn("q", vector<string>(t.getNumberOfRows(), "w")); use(t.getColumn(t.getNumberOfColumns() - 1)); use(t.getColumnNames()); }},
+      {"DataTable::addColumn(long col)", [](DataTable& t) { t.addColumn(vector<string>(t.getNumberOfRows() + 1, "z")); }},
+    };
+    vector<string> od2;
+    const char* variants[] = {"header=1 rowNames=-1", "header=1 rowNames=0", "header=0 rowNames=-1"};
+    for (auto& e : eds) for (int v = 0; v < 3; ++v) od2.push_back(e.first + " after read(sep=\",\" " + variants[v] + ")");
+    add("DataTable.edits", {"x", "y", ",", "\n"}, od2, [eds](const string& s, int o, vf::Case& c) {
+      int v = o % 3; const auto& e = eds[(size_t)(o / 3)];
+      std::istringstream in(s);
+      S(c, "DataTable::read");
+      std::unique_ptr<DataTable> dt = DataTable::read(in, ",", v != 2, v == 1 ? 0 : -1);
+      S(c, e.first.c_str());
+      try { e.second(*dt); } catch (bpp::Exception&) {}
+      S(c, "DataTable::write(after edit)");
+      { std::ostringstream out; DataTable::write(*dt, out, ",", true); use(out.str()); }
     }, true);
   }
 
@@ -440,7 +445,7 @@ static vector<EP> buildEPs() {
   {
     // description = family "(" item ("," item)* ")" with items from a family-specific list (letters = items)
     struct Fam { string name; vector<string> items; };
-    vector<string> ncl = {"n=0", "n=1", "n=2", "n=-1", "n=x", "n="};
+    vector<string> ncl = {"n=1", "n=2", "n=x", "n="};
     vector<Fam> fams = {
       {"Gamma", {"alpha=0", "alpha=2", "alpha=x", "beta=2", "beta=-1", "offset=1", "offset=x", "ParamOffset=1"}},
       {"Beta", {"alpha=0", "alpha=2", "alpha=x", "beta=2", "beta=-1", "beta="}},
@@ -465,6 +470,19 @@ static vector<EP> buildEPs() {
         size_t n = d->getNumberOfCategories(); use(n);
         for (size_t i = 0; i < n && i < 4; ++i) { use(d->getCategory(i)); use(d->getProbability(i)); }
       }, true);
+      // degenerate class counts (own small space: these fail on the unchanged tree for every description of some families)
+      vector<string> few(f.items.begin(), f.items.begin() + 3);
+      add("readDiscreteDistribution." + fam + ".class-count", few, {"n=0", "n=-1", "n=99999999", "n=0 parseArguments=0", "n=3000000000"},
+          [fam](const string& s, int o, vf::Case& c) {
+        const char* ns[] = {"n=0", "n=-1", "n=99999999", "n=0", "n=3000000000"};
+        string desc = fam + "(" + ns[o] + (s.empty() ? "" : ",") + s + ")";
+        BppODiscreteDistributionFormat rd(false);
+        S(c, "BppODiscreteDistributionFormat::readDiscreteDistribution(class count)");
+        auto d = rd.readDiscreteDistribution(desc, o != 3);
+        S(c, "DiscreteDistribution accessors after read(class count)");
+        size_t n = d->getNumberOfCategories(); use(n);
+        for (size_t i = 0; i < n && i < 4; ++i) { use(d->getCategory(i)); use(d->getProbability(i)); }
+      }, false);
     }
     // Simple: values / probas / ranges from lists of well- and ill-formed pieces (letters = whole arguments)
     add("readDiscreteDistribution.Simple", {"values=", "values=(", "values=()", "values=(1)", "values=(1,2)", "values=(x)", "values=1", "probas=", "probas=()", "probas=(1)", "probas=(0.5,0.5)", "probas=(0.5,0.6)", "probas=(x)",
@@ -547,6 +565,7 @@ int main(int argc, char** argv) {
     {"AttributesTools.resolveVariables.words", {6, 7}},
     {"AttributesTools.getAttributesMap.continuation", {4, 5}},
     {"ApplicationTools.range-vector-readers", {4, 5}},
+    {"DataTable.edits", {4, 5}},
     {"NumCalcApplicationTools.getVector.words", {4, 5}},
     {"readDiscreteDistribution.Simple", {3, 4}},
     {"readDiscreteDistribution.compound", {4, 5}},
@@ -562,7 +581,8 @@ int main(int argc, char** argv) {
     int want = th ? 7 : 5;
     auto it = maxLen.find(ep.name); if (it != maxLen.end()) want = th ? it->second.second : it->second.first;
     bool distItems = ep.name.find("readDiscreteDistribution.") == 0 && ep.name != "readDiscreteDistribution.compound";
-    if (distItems && it == maxLen.end()) want = th ? 4 : 3;
+    bool classCount = ep.name.find(".class-count") != string::npos;
+    if (distItems && it == maxLen.end()) want = classCount ? (th ? 2 : 1) : (th ? 4 : 3);
     int L = fitLen(A, want, O, cap);
     uint64_t nS = countUpTo(A, L);
     capsNote += ep.name + "=" + vf::str(L) + (L < want ? "(capped from " + vf::str(want) + ")" : "") + "; ";
@@ -579,6 +599,7 @@ int main(int argc, char** argv) {
     // ---- repetition families: every word of 1..3 letters repeated to >= 64 and >= 4096 bytes ----
     int wl = (A > 12) ? 2 : 3;
     if (ep.name.find(".empty-delimiters") != string::npos) wl = 1;   // solid mode: every case fails on the unchanged tree
+    if (ep.name == "FileTools.paths" || classCount) wl = 1;           // getParent: every separator-free heap string fails on the unchanged tree
     uint64_t nW = countUpTo(A, wl) - 1;
     string rname = "rep:" + ep.name + ":letters=" + vf::str(A) + ":w<=" + vf::str(wl) + ":bytes=64,4096:opts=" + vf::str(O);
     R.space(rname, nW * 2 * O, [ep, A, O, sep](uint64_t idx, vf::Case& c) {
